@@ -11,6 +11,7 @@ from idpyoidc.message import SINGLE_REQUIRED_INT
 from idpyoidc.message import SINGLE_REQUIRED_STRING
 from idpyoidc.message import Message
 from idpyoidc.message.oauth2 import ResponseMessage
+from idpyoidc.message.oauth2 import drop_verified_copies
 from idpyoidc.message.oidc import IdToken
 from idpyoidc.message.oidc import clear_verified_claims
 
@@ -36,9 +37,9 @@ class AuthenticationRequest(Message):
     }
 
     def verify(self, **kwargs):
+        super(AuthenticationRequest, self).verify(**kwargs)
         # what a message holds as verified is what this verification established
         clear_verified_claims(self)
-        super(AuthenticationRequest, self).verify(**kwargs)
         if "request" in self:
             _vc_name = verified_claim_name("request")
 
@@ -58,6 +59,7 @@ class AuthenticationRequest(Message):
                     pass
 
             _req = AuthenticationRequestJWT().from_jwt(str(self["request"]), **args)
+            drop_verified_copies(_req)
             self.update({k: v for k, v in _req.items() if k not in JWT_ARGS})
             self[_vc_name] = _req
 
